@@ -34,7 +34,7 @@ def calc_velo_and_disp_from_accel_arr(acceleration, dt, trap=True):
         displacement = displacement[:-1]
     else:
 
-        velocity = cumulative_trapezoid(acceleration, dx=dt, initial=0)
+        velocity = cumulative_trapezoid(np.asarray(acceleration, dtype=float), dx=dt, initial=0)
         displacement = cumulative_trapezoid(velocity, dx=dt, initial=0)
 
     return velocity, displacement
